@@ -80,6 +80,10 @@ BlockCase(cs) ==
   /\ IF C!GasComparable(cs.orig) /\ C!GasComparable(cs.out)
      THEN CostClause(cs, "gas", cs.gas, C!GasStatic(cs.orig, p), C!GasStatic(cs.out, p))
      ELSE Count(4, 1)
+  \* blocks with several storage / account accesses: the tool's symbolic warm/cold accounting, restated (Cost!SymGas)
+  /\ IF C!SymPriceable(cs.orig) /\ C!SymPriceable(cs.out)
+     THEN CostClause(cs, "gas (symbolic warm/cold accounting)", cs.gas, C!SymGas(cs.orig, p), C!SymGas(cs.out, p))
+     ELSE TRUE
   /\ IF C!ZeroPushes(cs.out) > C!ZeroPushes(cs.orig) THEN Count(IF p THEN 2 ELSE 3, 1) ELSE TRUE
   /\ IF cs.out # cs.orig THEN Count(8, 1) ELSE TRUE
 
